@@ -7,13 +7,18 @@ from common import hx
 from eth_hash.auto import keccak
 
 ID = "C05"
-LEAN_IMPORTS = ["PyTrie.Props.C05"]
+LEAN_IMPORTS = ["PyTrie.Props.C05", "PyTrie.Props.C05Batch"]
 THEOREMS = [
     "PyTrie.Props.C05.abort_restores_world",
     "PyTrie.Props.C05.batch_ops_leave_base",
     "PyTrie.Props.C05.commit_failure_keeps_outer",
     "PyTrie.Props.C05.commit_adopts_root",
     "PyTrie.Props.C05.commitLoop_fail_prefix",
+    "PyTrie.Props.C05.batch_begin_invariant",
+    "PyTrie.Props.C05.batch_op_invariant",
+    "PyTrie.Props.C05.commit_produces_view",
+    "PyTrie.Props.C05.batch_commit_exact",
+    "PyTrie.HexW.commitLoop_view_needs_nodup",
 ]
 RULE = ("prior history, then squash_changes blocks with every exit kind: normal, an exception after n of the "
         "block's operations (every n), and - for non-pruning tries - the n-th database write of the commit failing "
